@@ -200,9 +200,13 @@ func NormalizeBolt(evs []Ev) []Ev {
 		switch c["ev"] {
 		case "BeginRead", "EndRead", "BeginWrite", "RollbackUser", "RollbackPhysical", "EndWrite", "LoadFreelistPage", "LoadFreelistScan":
 			_, hasFree := c["free"]
-			c["nofl"] = !hasFree
+			_, hasReaders := c["readers"]
+			c["nofl"] = !hasFree && !hasReaders
 			if !hasFree {
-				c["free"], c["pend"], c["readers"], c["freeN"], c["pendN"] = []int{}, []int{}, []int{}, 0, 0
+				c["free"], c["pend"], c["freeN"], c["pendN"] = []int{}, []int{}, 0, 0
+			}
+			if !hasReaders {
+				c["readers"] = []int{}
 			}
 			_, mapped := c["datasz"]
 			c["nomap"] = !mapped
